@@ -32,7 +32,7 @@ def check(run):
             sc.exp_results.append("Err:NeedsPin" if c == 0xfc else "Err:Zvt:Aborted:%d" % c if c in known else "Err:Msg:Unknown_error_code:_0x%X" % c)
             add(sc, "reservation")
             # commit (partial reversal), cancel (pre-auth reversal), and the clean-up chain behind them
-            for variant in ("commit", "cancel", "commit-eod", "cancel-pending-reversal", "cancel-eod"):
+            for variant in ("commit", "cancel", "commit-eod", "cancel-pending-reversal", "cancel-eod", "commit-pending-query", "cancel-pending-query"):
                 sc = cc.Scenario(S).start(); cfg = sc.cfg
                 sc.ops.append("begin:41"); sc.exchange(S.reservation(cfg["cur"], cfg["amount"], "A"), [S.status_info({0x27: 0, 0x87: 321}), S.completion()])
                 sc.exp_results.append("Ok")
@@ -49,6 +49,21 @@ def check(run):
                     sc.exchange(S.pending_query(), [S.pr_abort(0xb8, 0xFFFF)])
                     sc.exchange(S.end_of_day(cfg["pw"]), pre + [S.pr_abort(c)])
                     sc.exp_results.append("Ok:tid=-,amount=5,trace=-,date=-,time=-" if c == 0xa0 else err)
+                elif variant in ("commit-pending-query", "cancel-pending-query"):
+                    # the query for a dangling pre-authorisation itself: its answer carries 0xB8 by protocol; any other code aborts it
+                    if variant.startswith("commit"):
+                        sc.ops.append("commit:41:100")
+                        sc.exchange(S.partial_reversal(321, cfg["cur"], cfg["amount"] - 100, "A"), [S.status_info({0x27: 0, 0x04: 5}), S.completion()])
+                        ok = "Ok:tid=-,amount=5,trace=-,date=-,time=-"
+                    else:
+                        sc.ops.append("cancel:41"); sc.exchange(S.preauth_reversal(cfg["cur"], 321), [S.completion()])
+                        ok = "Ok"
+                    sc.exchange(S.pending_query(), [S.pr_abort(c, rng.choice([None, 0xFFFF]))] if c != 0xb8 else [S.pr_abort(0xb8, 0xFFFF)])
+                    if c == 0xb8:
+                        sc.exchange(S.end_of_day(cfg["pw"]), [S.completion()])
+                        sc.exp_results.append(ok)
+                    else:
+                        sc.exp_results.append(err)
                 elif variant == "cancel-pending-reversal":
                     sc.ops.append("cancel:41"); sc.exchange(S.preauth_reversal(cfg["cur"], 321), [S.completion()])
                     sc.exchange(S.pending_query(), [S.pr_abort(0xb8, 555)])
@@ -61,7 +76,7 @@ def check(run):
                     sc.exp_results.append("Ok" if c == 0xa0 else err)
                 add(sc, variant)
             # configure: system info, set terminal id, initialisation, end of day
-            for stage in ("sysinfo", "set-terminal-id", "initialisation", "end-of-day"):
+            for stage in ("sysinfo", "set-terminal-id", "initialisation", "pending-query", "end-of-day"):
                 sc = cc.Scenario(S).start(); cfg = sc.cfg
                 sc.ops.append("configure")
                 err = "Err:Zvt:Aborted:%d" % c
@@ -75,6 +90,13 @@ def check(run):
                         sc.exchange(S.set_terminal_id(cfg["pw"], int(cfg["tid"])), [S.completion()])
                         if stage == "initialisation":
                             sc.exchange(S.initialization(cfg["pw"]), pre + [S.abort(c)]); sc.exp_results.append(err)
+                        elif stage == "pending-query":
+                            sc.exchange(S.initialization(cfg["pw"]), [S.completion()])
+                            if c == 0xb8:
+                                sc.exchange(S.pending_query(), [S.pr_abort(0xb8, 0xFFFF)])
+                                sc.exchange(S.end_of_day(cfg["pw"]), [S.completion()]); sc.exp_results.append("Ok")
+                            else:
+                                sc.exchange(S.pending_query(), [S.pr_abort(c, rng.choice([None, 0xFFFF, 77]))]); sc.exp_results.append(err)
                         else:
                             sc.exchange(S.initialization(cfg["pw"]), [S.completion()])
                             sc.exchange(S.pending_query(), [S.pr_abort(0xb8, 0xFFFF)])
@@ -93,7 +115,7 @@ def check(run):
     report_diffs(run, diffs, "coq/Client.v (handlers)", "zvt_feig_terminal::feig", "client")
     if any(not v.get("no_failing_input_found") for v in run.violations):
         run.violations = [v for v in run.violations if not v.get("no_failing_input_found")]
-    return vlib.finish(run, trusted_base=TB, assumptions=["the dangling-pre-authorisation query is answered with an abort-class packet by protocol design; its code is not an error (observation O5)",
+    return vlib.finish(run, trusted_base=TB, assumptions=["the dangling-pre-authorisation query is answered with an abort-class packet carrying 0xB8 by protocol design; any other code aborts the query (since the fix of F11)",
                                                            "Feig::new discards the outcome of its initial configure() (observation O10); the property is decided for configure itself"])
 
 
